@@ -231,8 +231,27 @@ fn c06_sigmap(f: &Facts, sc: &Sc) {
 	}
 }
 
+/// Every operation runs once, so it spawns at most once: the number of spawn attempts
+/// (successful or failed) never exceeds the number of operations sent that may spawn.
+/// What a failed respawn leaves behind (a restart flag, an armed timer) shows up here as an
+/// attempt nobody asked for.
+fn spawn_attempts_exceed_ops(f: &Facts) -> Option<(usize, usize)> {
+	let attempts = f.log.iter().filter(|r| matches!(r.ev, Ev::Spawn { .. } | Ev::SpawnFail { .. })).count();
+	let ops = f.ops.iter().filter(|o| o.op.may_spawn() && !o.sent_to_dead).count();
+	(attempts > ops).then_some((attempts, ops))
+}
+
 fn c06_end(f: &Facts, sc: &Sc) {
 	c06_sigmap(f, sc);
+	// (e') "the replacement ... starts exactly once", also when it fails to start
+	if let Some((attempts, ops)) = spawn_attempts_exceed_ops(f) {
+		if sc.script.iter().any(|(o, _)| o.is_graceful()) {
+			f.push(
+				format!("C06/replacement-started-again/{}-spawn-attempts-for-{}-spawning-operations", attempts, ops),
+				format!("{attempts} spawn attempts (failed ones included) for {ops} operations that may spawn"),
+			);
+		}
+	}
 	// (a) the requested signal comes first, whatever the grace period (zero included): in a
 	// script whose only process-ending operations are graceful ones, nothing may be killed
 	// that was not sent one of their signals before
@@ -407,6 +426,15 @@ fn c07_end(f: &Facts, sc: &Sc, task_finished: bool) {
 }
 
 fn c10_end(f: &Facts, sc: &Sc) {
+	// "each exactly once": a control that runs a second time (e.g. the continuation of a
+	// graceful restart fired again by a timer that should have been disarmed) is visible as a
+	// spawn attempt beyond the operations sent
+	if let Some((attempts, ops)) = spawn_attempts_exceed_ops(f) {
+		f.push(
+			"C10/control-ran-again/more-spawn-attempts-than-spawning-operations".into(),
+			format!("{attempts} spawn attempts (failed ones included) for {ops} operations that may spawn"),
+		);
+	}
 	let dead_seen = hs(|h| h.dead_seen);
 	// per-sender order, at most once
 	let senders: BTreeSet<u8> = f.ops.iter().map(|o| o.sender).collect();
